@@ -82,7 +82,9 @@ Feat(p) ==
       [] OTHER -> ""
 TermOpts == <<"version", "validate", "enable_schedule", "disable_schedule", "test_connection", "support", "diagnosis",
               "checkin", "list_specs", "show_results", "check_results", "status", "unregister">>
-FirstTerm == LET i == CHOOSE i \in 1..Len(TermOpts) : opt[TermOpts[i]] /\ \A j \in 1..(i - 1) : ~opt[TermOpts[j]]
+(* --disable-schedule together with --register does not end the run *)
+TermOn(i) == opt[TermOpts[i]] /\ (TermOpts[i] = "disable_schedule" => ~ERegister(opt))
+FirstTerm == LET i == CHOOSE i \in 1..Len(TermOpts) : TermOn(i) /\ \A j \in 1..(i - 1) : ~TermOn(j)
              IN TermOpts[i]
 Where == Ev.phase \o ":" \o Mode \o ":" \o Want.at
 FirstOf(S) == CHOOSE x \in S : TRUE
